@@ -49,9 +49,9 @@ def ob_coherent_after_history(p0: bool, t0: int, g0: List[int], p1: bool, t1: in
 def ob_write_clear_symmetry(p: bool, kind: int, ts: int, g: List[int], dup: bool) -> str:
     """
     pre: 0 <= kind < 70000 and 1 <= ts < 4294967296
-    pre: len(g) <= 2 and all(0 <= i < len(K.GEN) for i in g) and (len(g) < 2 or g[1] < 4)
+    pre: len(g) <= 2 and all(0 <= i < len(K.GEN) for i in g) and (len(g) < 2 or g[1] < 2) and not p
     pre: not dup or len(g) == 1
-    pre: THOROUGH or (len(g) <= 1 and not p)
+    pre: THOROUGH or len(g) <= 1
     post: _.startswith("ok")
     """
     logging.disable(logging.CRITICAL)
